@@ -1671,6 +1671,10 @@ def mon_c14(w, F, vd):
                 in_call_err = r.fires[0][4]
             single = w.ops_done[e.step][0] == op
             if not allowed:
+                if single and not hasattr(w, "c14_forbidden"):
+                    w.c14_forbidden = []
+                if single:
+                    w.c14_forbidden.append((e.step, r.rid))
                 ok = in_call_err is not None and _is_state_error(in_call_err)
                 if op == "disconnect":
                     ok = ok and r.ret == "raised"
@@ -1851,6 +1855,20 @@ def mon_c16(w, F, vd):
                 vd.bad("C16.reaction", "input %s... answered with loseConnection (only abort is expected)" % data[:8].hex())
         pending_before = any(ri.accepted and (ri.fire is None or ri.fire[0] > e.i) and not (ri.kind == "publish" and ri.qos == 0)
                              for ri in F.info.values() if ri.req.step < e.step)
+        # a well-formed acknowledgement that answers no pending exchange of its own type justifies no success
+        outst = e.d.get("outstanding")
+        if outst is not None and len(frames) == 1 and classes == ["well"]:
+            try:
+                k1, f1, _ = R.ref_decode(frames[0], R.B2C, ver)
+            except R.Malformed:
+                k1 = None
+            if k1 in ("PUBACK", "PUBREC", "PUBCOMP", "SUBACK", "UNSUBACK") and f1["id"] not in outst.get(k1, []):
+                nontriv = True
+                vd.label("unasked_ack:" + k1)
+                for x in evs:
+                    if x.k == "fire" and x.d["out"] == "ok":
+                        vd.bad("C16.unjustified_success", "%s id %d answers no pending %s exchange but completed %s #%d" % (
+                            k1, f1["id"], {"PUBACK": "QoS 1", "PUBREC": "QoS 2", "PUBCOMP": "PUBREL"}.get(k1, k1), x.d["kind"], x.d["rid"]))
         if all(c_ == "hard" for c_ in classes):
             # nothing but hard-malformed frames (or no complete frame at all) became available in this delivery
             if classes:
